@@ -49,7 +49,7 @@ def one(args):
             ids = sorted(set(' '.join(PK.get(p, '') for p in pk).split()))
         v = base + '/verif'
         os.makedirs(v)
-        sh('cd /verif && tar cf - go.mod go.sum run mc oracle libdefaults checks overlay known_findings.json | tar xf - -C %s' % v)
+        sh('cd /verif && tar cf - go.mod go.sum run mc oracle libdefaults firstuse checks overlay known_findings.json tools/ovgen tools/build_check.sh | tar xf - -C %s' % v)
         sh("sed -i 's#=> /repo#=> %s#' %s/go.mod" % (repo, v))
         env = dict(ENV, VERIF_REPO=repo, VERIF_SRC=v, VERIF_ROOT=v, VERIF_WORKERS=str(workers), VERIF_BUDGET='6m')
         res['checks'] = {}
